@@ -201,6 +201,20 @@ def fam_types3(tnames=('TA', 'TN'), *, batch: int = 2) -> Iterator[Config]:
             yield Config(spec=spec, requested=tuple((i, False) for i in range(3)), batch=batch)
 
 
+def fam_post_init(nmax: int = 2, *, batch: int = 2) -> Iterator[Config]:
+    """Task types whose post_init derives helpers that cannot be pickled (they are re-derived wherever
+    the task goes)."""
+    for n in range(1, nmax + 1):
+        for shape in all_shapes(n):
+            for types in itertools.product(('TP', 'TA'), repeat=n):
+                if 'TP' not in types:
+                    continue
+                spec = mk_spec(shape, types=types)
+                yield Config(spec=spec, requested=tuple((i, False) for i in range(n)), batch=batch)
+                if n > 1:
+                    yield Config(spec=spec, requested=((n - 1, False),), precached=(0,), batch=batch)
+
+
 def fam_corrupt(nmin: int = 2, nmax: int = 3, *, batch: int = 2) -> Iterator[Config]:
     """Warm caches in which the stored result of one entry is damaged (metadata intact): the entry looks
     cached, cannot be loaded - the task fails; it is not re-run behind the caller's back."""
